@@ -11,6 +11,7 @@ import (
 	"errors"
 	"io"
 	"net"
+	"os"
 	"sync"
 	"time"
 )
@@ -55,7 +56,26 @@ type stream struct {
 	// lagAccept: a Write held back by the lag is accepted (and recorded) when the lag
 	// is over instead of failing - a segment that was already on its way.
 	lagAccept bool
+
+	// deadlines as set through net.Conn's SetReadDeadline (reader side of this stream) and
+	// SetWriteDeadline (writer side): an operation that is past its deadline, or gets there
+	// while blocked, fails with os.ErrDeadlineExceeded, as on a socket.
+	rdl, wdl time.Time
 }
+
+// wake arranges for the waiters of s to look again when dl is reached (s.mu is held).
+func (s *stream) wake(dl time.Time) {
+	if dl.IsZero() {
+		return
+	}
+	time.AfterFunc(time.Until(dl), func() {
+		s.mu.Lock()
+		s.cond.Broadcast()
+		s.mu.Unlock()
+	})
+}
+
+func expired(dl time.Time) bool { return !dl.IsZero() && !time.Now().Before(dl) }
 
 // waitLag is called with s.mu held when a local Close has ended the stream.
 func (s *stream) waitLag() {
@@ -94,6 +114,10 @@ func (s *stream) read(p []byte) (int, error) {
 			}
 			return 0, err
 		}
+		if expired(s.rdl) {
+			return 0, os.ErrDeadlineExceeded
+		}
+		s.wake(s.rdl)
 		s.cond.Wait()
 	}
 	if len(p) == 0 {
@@ -145,6 +169,9 @@ func (s *stream) write(p []byte) (int, error) {
 		if len(p) == 0 {
 			return n, nil
 		}
+		if expired(s.wdl) {
+			return n, os.ErrDeadlineExceeded
+		}
 		room := len(p)
 		if s.capacity > 0 {
 			if r := s.capacity - s.size; r < room {
@@ -155,6 +182,7 @@ func (s *stream) write(p []byte) (int, error) {
 			room = int(s.budget)
 		}
 		if room <= 0 {
+			s.wake(s.wdl)
 			s.cond.Wait()
 			continue
 		}
@@ -376,10 +404,25 @@ type addr struct{}
 func (addr) Network() string { return "memconn" }
 func (addr) String() string  { return "memconn" }
 
-func (e *End) LocalAddr() net.Addr                { return addr{} }
-func (e *End) RemoteAddr() net.Addr               { return addr{} }
-func (e *End) SetDeadline(t time.Time) error      { return nil }
-func (e *End) SetReadDeadline(t time.Time) error  { return nil }
-func (e *End) SetWriteDeadline(t time.Time) error { return nil }
+func (e *End) LocalAddr() net.Addr  { return addr{} }
+func (e *End) RemoteAddr() net.Addr { return addr{} }
+func (e *End) SetDeadline(t time.Time) error {
+	e.SetReadDeadline(t)
+	return e.SetWriteDeadline(t)
+}
+func (e *End) SetReadDeadline(t time.Time) error {
+	e.in.mu.Lock()
+	e.in.rdl = t
+	e.in.cond.Broadcast()
+	e.in.mu.Unlock()
+	return nil
+}
+func (e *End) SetWriteDeadline(t time.Time) error {
+	e.out.mu.Lock()
+	e.out.wdl = t
+	e.out.cond.Broadcast()
+	e.out.mu.Unlock()
+	return nil
+}
 
 var _ net.Conn = (*End)(nil)
